@@ -1099,7 +1099,8 @@ impl Entry {
                 // Every line of the formatted value is value text: the lexer
                 // would take the start of a continuation line for a key
                 let mut tokens = vec![];
-                for (i, line) in formatted.split('\n').enumerate() {
+                // (a carriage return ends a line for the lexer just as a line feed does)
+                for (i, line) in formatted.split(['\n', '\r']).enumerate() {
                     if i > 0 {
                         tokens.push((NEWLINE, "\n".to_string()));
                     }
